@@ -195,6 +195,9 @@ func c17Judge(pre *world.State, post *world.State, sts *appsv1.StatefulSet, init
 				b, _ := json.Marshal(want.Spec)
 				if string(a) != string(b) {
 					out = append(out, "delete-with-different-spec|built-in set deleted while the Advanced set's spec differs")
+				} else if d := jsonIncluded(toTree(sts.Spec), toTree(adv.Spec), "$.spec"); d != "" {
+					// the reference is the built-in object itself, not what the helper's own conversion makes of it
+					out = append(out, "delete-with-different-spec|built-in set deleted while the Advanced set's spec lacks what the built-in spec says: "+d)
 				}
 				a, _ = json.Marshal(adv.Status)
 				b, _ = json.Marshal(want.Status)
@@ -373,7 +376,7 @@ func init() {
 			depth = 3
 		}
 		kinds := []string{world.FErr500, world.FTimeout, world.FConflict, world.FGone, world.FExists, world.FCrashBefore, world.FCrashAfter}
-		rep.Rule = fmt.Sprintf("the real helper.Upgrade on the API model: selector{app=web | app In (web) | app=web and app Exists | app Exists | app Exists and tier NotIn (cache) | app=web and canary DoesNotExist} x revision populations of size 0..3 over {matching, non-matching, foreign-owned} x Advanced set{absent, present equal, present different, present with a superset of the spec (extra template labels/annotations, node selector, optional fields)}; for every API call position of the run x fault kind %v applicable to the verb, then re-run from the resulting state with a further fault at every position, to depth %d, finally re-run without faults; oracle: at the delete of the built-in set an Advanced set with equal spec and status exists, propagation is Orphan, every revision listed at the start carries the marker and no longer matches the selector; no write on pods/claims; a fault-free re-run succeeds and the final state equals the uninterrupted run's (UIDs of the new object normalised; not compared when a `gone` fault, i.e. a concurrent deletion by someone else, changed the world). Non-trivial = at least one fault injected.", kinds, depth)
+		rep.Rule = fmt.Sprintf("the real helper.Upgrade on the API model: selector{app=web | app In (web) | app=web and app Exists | app Exists | app Exists and tier NotIn (cache) | app=web and canary DoesNotExist} x revision populations of size 0..3 over {matching, non-matching, foreign-owned} x Advanced set{absent, present equal, present different, present with a superset of the spec (extra template labels/annotations, node selector, optional fields)}; for every API call position of the run x fault kind %v applicable to the verb, then re-run from the resulting state with a further fault at every position, to depth %d, finally re-run without faults; oracle: at the delete of the built-in set an Advanced set with equal spec and status exists, propagation is Orphan, every revision listed at the start carries the marker and no longer matches the selector; no write on pods/claims; a fault-free re-run succeeds and the final state equals the uninterrupted run's (UIDs of the new object normalised; not compared when a `gone` fault, i.e. a concurrent deletion by someone else, changed the world). Built-in sets whose spec uses a field the Advanced API does not have (start ordinal, minReadySeconds, claim retention policy) are run once each: the built-in set may only go if the Advanced spec says everything the built-in spec says (judged against the built-in object, not against the helper's own conversion), and a helper that declines leaves no change behind. Non-trivial = at least one fault injected.", kinds, depth)
 		rep.Assumptions = []string{"the caller re-runs the helper with the same built-in object it started with", "API model of DESIGN.md Appendix A; the built-in controller and the garbage collector are not running during the upgrade"}
 		var cases []c17Case
 		var revPops [][]string
@@ -419,9 +422,66 @@ func init() {
 		}
 		close(ch)
 		wg.Wait()
+		c17Unrepresentable(rep)
 		rep.Extra["cases"] = len(cases)
 		rep.Extra["fault_depth"] = depth
 		rep.Validated = rep.States
 		return rep.Finish()
 	})
+}
+
+// c17Unrepresentable: built-in sets whose spec says something the Advanced API has no field for. No Advanced object
+// can have "the same spec", so the built-in set must stay; and a helper that declines must decline before it touches
+// anything.
+func c17Unrepresentable(rep *explore.Report) {
+	w := world.New()
+	start, minReady := int32(5), int32(10)
+	extras := map[string]func(*appsv1.StatefulSet){
+		"spec.ordinals.start=5":   func(s *appsv1.StatefulSet) { s.Spec.Ordinals = &appsv1.StatefulSetOrdinals{Start: start} },
+		"spec.minReadySeconds=10": func(s *appsv1.StatefulSet) { s.Spec.MinReadySeconds = minReady },
+		"spec.persistentVolumeClaimRetentionPolicy": func(s *appsv1.StatefulSet) {
+			s.Spec.PersistentVolumeClaimRetentionPolicy = &appsv1.StatefulSetPersistentVolumeClaimRetentionPolicy{WhenDeleted: appsv1.DeletePersistentVolumeClaimRetentionPolicyType, WhenScaled: appsv1.RetainPersistentVolumeClaimRetentionPolicyType}
+		},
+	}
+	var names []string
+	for n := range extras {
+		names = append(names, n)
+	}
+	sort.Strings(names)
+	for _, n := range names {
+		for _, sel := range []string{"matchLabels", "expressions"} {
+			for _, adv := range []string{"absent", "equal"} {
+				c := c17Case{Selector: sel, Revs: []string{"match", "match"}, Adv: adv}
+				seed, sts := c.build()
+				extras[n](sts)
+				seed.API.BSets["web"] = sts
+				seed.SyncCaches()
+				w.Lag = 0
+				w.Load(seed)
+				selr, _ := metav1.LabelSelectorAsSelector(sts.Spec.Selector)
+				var initial []string
+				for _, k := range world.SortedKeys(seed.API.Revs) {
+					if selr.Matches(labels.Set(seed.API.Revs[k].Labels)) {
+						initial = append(initial, k)
+					}
+				}
+				run := c17Upgrade(w, sts, nil)
+				post := w.S.Clone()
+				label := fmt.Sprintf("built-in set with %s, %s", n, c)
+				rep.AddStates(1, 1)
+				rep.Count(sha16(label), true, "unrepresentable spec")
+				for _, v := range c17Judge(seed, post, sts, initial, run) {
+					p := strings.SplitN(v, "|", 2)
+					rep.Violation("C17", p[0], label+": "+p[1], func() interface{} {
+						return map[string]interface{}{"kind": "c17", "case": label}
+					})
+				}
+				if run.err != nil && normFinal(post) != normFinal(seed) {
+					rep.Violation("C17", "declined-after-modifying", label+": the helper returned an error ("+run.err.Error()+") although no call failed, and left changes behind", func() interface{} {
+						return map[string]interface{}{"kind": "c17", "case": label}
+					})
+				}
+			}
+		}
+	}
 }
